@@ -281,9 +281,13 @@ func (vc *FuncVC) applyContract(s *State, cl *callee, ord int, site ssa.Instruct
 	var ss *SiteSpec
 	if vc.cur.c != nil {
 		ss = vc.cur.c.Sites[siteKey]
-		if ss == nil {
-			if w := vc.cur.c.Sites[fmt.Sprintf("call %s#*", cl.name)]; w != nil {
+		if w := vc.cur.c.Sites[fmt.Sprintf("call %s#*", cl.name)]; w != nil {
+			if ss == nil {
 				ss, siteKey = w, fmt.Sprintf("call %s#*", cl.name)
+			} else { // clauses for this ordinal and clauses for every ordinal both apply
+				vc.sitesUsed[fmt.Sprintf("call %s#*", cl.name)] = true
+				ss = &SiteSpec{Site: ss.Site, Asserts: append(append([]Clause{}, ss.Asserts...), w.Asserts...),
+					Assumes: append(append([]Clause{}, ss.Assumes...), w.Assumes...), Ghost: append(append([]GhostAssign{}, ss.Ghost...), w.Ghost...)}
 			}
 		}
 		if ss == nil {
